@@ -21,12 +21,12 @@ na = {
 }
 checks = {
 "C11": dict(engine="abortsim", category="fault_enumeration",
-  text="The parse budget is a cooperative fault point compiled into the parser (abort at step n+1, recovered into an error). For each sampled input every abort point is enumerated (all n in [1,S+2] when the unlimited parse takes S<=1500/4096 steps; n<=64, S+-k, geometric sweep to 2^18/2^22 and seeded samples otherwise; nested parentheses up to depth 16 without ever running the unlimited parse), through both grammar.Parse+MaxExpressions and bexpr.CreateEvaluator+WithMaxExpressions, and checked against: budget 0 = no budget, the result is either exactly the unlimited one or nil + max-expressions error, the threshold is monotone, the number of parseExpr entries counted by instrumentation never exceeds n+1, statements executed stay proportional to n, and an aborted parse leaves no residue for later parses. Complete per input over abort points; inputs are sampled, so this is evidence, not proof.",
+  text="The parse budget is a cooperative fault point compiled into the parser (abort at step n+1, recovered into an error). For each sampled input (the repository's parser tests, seeded grammar derivations, token-level mutations, early-failing inputs with a long unread tail, nested parentheses to depth 16 whose unlimited parse is never run) every abort point is enumerated - all n in [1,S+2] when the unlimited parse takes S<=1500/4096 steps; n<=64, S+-k, a geometric sweep to 2^18/2^22, seeded samples and huge budgets up to 2^64-1 otherwise - through both grammar.Parse+MaxExpressions and bexpr.CreateEvaluator+WithMaxExpressions (with other options around it), each API driven reference-first or limited-first (threshold located through the public option before any unlimited parse of that input). Oracles: budget 0 = no budget; the result is exactly the unlimited one or nil + max-expressions error; the threshold is monotone and exceeds the instrumented step count by at most one; parseExpr entries counted by instrumentation never exceed n+1; statements executed stay proportional to n; an aborted parse leaves no residue for later parses; the result for a budget does not depend on what was parsed before. Complete per input over abort points; inputs are sampled, so this is evidence, not proof.",
   design="4.4",
-  note="Trusted: the AST instrumenter (checked on every run by running the repository's own suite on the instrumented copy), the step definition (entry of (*parser).parseExpr in the current tree), the learned text of the budget error. Not required: threshold == step count.",
+  note="Trusted: the AST instrumenter (checked on every run by running the repository's own suite on the instrumented copy), the step definition (entry of (*parser).parseExpr in the current tree; if that function disappears only the proportional bound applies), the learned text of the budget error (taken from budget 1 on a calibration input, not copied from the source).",
   technique="deterministic simulation: enumeration of injected abort points (parse budget) inside a running parse, differential against the unlimited run"),
 "C14": dict(engine="ordersim", category="exploration",
-  text="The order in which map entries are visited is the runtime's choice; in the instrumented copy every such choice (reflect MapKeys/MapRange, range over a map) goes through the simulator, which imposes the order an explicit tape dictates. For each seeded case (quantifiers in all binding modes, nested, and Filter.Execute, over maps of 2-8 entries whose elements are built and measured to mix true/false/error) the canonical order, its reverse, all rotations, all entry-first orders, seeded permutations and - for trees of <=5040 leaves - every order are executed and must give the same (boolean, error-or-not) / (result, error-or-not). Non-trivial cases are then repeated 200x on the untouched build under the real runtime to catch order sources the seam does not control. Seeded search over orders: a clean run is evidence, not proof.",
+  text="The order in which map entries are visited is the runtime's choice; in the instrumented copy every such choice inside go-bexpr's packages (reflect MapKeys/MapRange incl. method expressions, range over a map) goes through the simulator, which imposes the order an explicit tape dictates. For each seeded case - quantifiers in all binding modes, nested, Filter.Execute, generated expressions over generated data; maps of 2-8 entries with string, named-string and interface keys and case-colliding key names, whose elements are built and measured to mix true/false/error; optionally on a used object that has first evaluated a sibling map - the canonical order, its reverse, all rotations, all entry-first orders, seeded permutations and, for trees of <=5040 leaves, every order are executed and must give the same (boolean, error-or-not) / (result, error-or-not). Non-trivial cases are then repeated 200x on the untouched build under the real runtime to catch order sources the seam does not control. Seeded search over orders: a clean run is evidence, not proof.",
   design="4.3",
   note="Trusted: the instrumenter's order seam covers every iteration-order source inside go-bexpr's packages (listed in the evidence; backed by the uncontrolled probe); key kinds in the pools have a value order. A panic is treated as an error outcome here (that it is a panic is C09's subject).",
   technique="deterministic simulation: simulator-owned map iteration order, seeded and exhaustive order tapes, plus uncontrolled-repetition probe"),
@@ -36,9 +36,9 @@ checks = {
   note="Trusted: the fingerprint covers everything reachable by reflection; the fresh object is the reference (the implementation is its own oracle for what a result should be). Hook panics are not injected (the library promises nothing about them).",
   technique="deterministic simulation: seeded operation histories with in-operation fault injection, checked op by op against a stateless reference (fresh object)"),
 "C12": dict(engine="simsched", category="exploration",
-  text="k=2..4 caller goroutines share evaluators/filters/data; a cooperative scheduler that the race detector cannot see (plain loads/stores + Gosched, //go:norace) decides at statement granularity which caller runs, from seeded plans (back-to-back, PCT-style change points per operation, store-window bias, dense first-use, round-robin quanta, lockstep). Oracles: every concurrent call returns what the sequential reference returns; the -race build reports no data race under the same plans (happens-before verdict, judged only by the synchronisation the library itself performs); shared data fingerprints unchanged; no deadlock on modelled primitives. Seeded search over schedules: evidence, not proof.",
+  text="k=2..4 caller goroutines share evaluators/filters/data (mixed plans, hammer plans where every caller makes the same calls on one object, plans where callers only create their own objects); a cooperative scheduler that the race detector cannot see (plain loads/stores + Gosched, //go:norace) decides at statement granularity which caller runs, from seeded plans (back-to-back, PCT-style change points per operation, store-window bias, sync-gap bias right after lock/unlock/atomic statements, dense first-use, round-robin quanta, lockstep). Plans are executed in-process (throughput) and cold: generated by a purely sequential process, executed concurrent-run-first in fresh processes of the plain and the -race build. Oracles: every concurrent call returns what a fresh object returns sequentially; the outcome classes of the concurrent run and of the sequential run that follows it equal those of the sequential generating process (damage that outlives the objects); no ThreadSanitizer report (judged only by the synchronisation the library itself performs); shared data fingerprints unchanged; no deadlock on modelled locks. Seeded search over schedules: evidence, not proof.",
   design="4.1",
-  note="Trusted: ThreadSanitizer as shipped with the Go toolchain; statement-level yields (interleavings inside reflect/regexp/pointerstructure calls are not split); Mutex/RWMutex/Once are modelled, other blocking primitives inside the library are reported as unmodelled (exit 2).",
+  note="Trusted: ThreadSanitizer as shipped with the Go toolchain (its verdict is a proof when it reports; sync.Pool randomness under -race makes silence non-deterministic, so confirmations retry); statement-level yields (interleavings inside reflect/regexp/pointerstructure calls are not split); Mutex/RWMutex/Once are modelled, other blocking primitives inside the library are reported as unmodelled (exit 2).",
   technique="deterministic simulation: seeded cooperative scheduling of caller goroutines with the race detector as in-run monitor and sequential-equivalence oracle"),
 }
 claimed = sys.argv[1:] if len(sys.argv) > 1 else []
